@@ -39,6 +39,10 @@ func sleepCtx(d time.Duration, ctxKind string, dl time.Duration, mode int) Scena
 			// cancelled mid-sleep with a cause: SleepContext still returns the context's error
 			c, cc := context.WithCancelCause(ctx)
 			ctx, cancel = c, func() { cc(errors.New("shutting down")) }
+		case "customEndsWithoutDeadline":
+			// a caller-defined context that ends at dl with DeadlineExceeded but reports no deadline
+			inner, c := context.WithTimeout(ctx, dl)
+			ctx, cancel = noDeadline{inner}, c
 		case "customPastDeadline":
 			// a caller-defined context type whose deadline has passed although it never ends
 			ctx = pastDeadline{ctx, time.Now().Add(dl)}
@@ -174,6 +178,11 @@ func lazyConsumer(d, jitter time.Duration, n int, mode int) Scenario {
 	}}
 }
 
+// noDeadline hides the deadline of the context it wraps (everything else is passed through).
+type noDeadline struct{ context.Context }
+
+func (noDeadline) Deadline() (time.Time, bool) { return time.Time{}, false }
+
 // pastDeadline is a context of the caller's own making: it reports a deadline and never ends.
 type pastDeadline struct {
 	context.Context
@@ -294,6 +303,7 @@ func All() []Scenario {
 			sleepCtx(10*ms, "cancelAt", 15*ms, mode),
 			sleepCtx(10*ms, "farDeadlineCancelAt", 5*ms, mode),
 			sleepCtx(10*ms, "cancelCauseAt", 5*ms, mode),
+			sleepCtx(10*ms, "customEndsWithoutDeadline", 5*ms, mode),
 			sleepCtx(10*ms, "customPastDeadline", -5*ms, mode),
 			sleepCtx(10*ms, "customPastDeadline", 5*ms, mode),
 		)
